@@ -12,6 +12,7 @@ PROPS = {
     'C04': ('theories/Properties/C04.v', [], 'c04'),
     'C08': ('theories/Properties/C08.v', [], 'c08'),
     'C10': ('theories/Properties/C10.v', [], 'c10'),
+    'C15': ('theories/Properties/C15.v', [], 'c15'),
     'C16': ('theories/Properties/C16.v', [], 'c16'),
     'C17': ('theories/Properties/C17.v', [], 'c17'),
 }
